@@ -7,19 +7,24 @@ from common import *
 EPOCH0 = 1700000000
 
 
-def ts_str(t):
-    """[sec, nsec] -> RFC3339Nano UTC as Go prints it."""
+def ts_str(t, zone=None):
+    """[sec, nsec] -> RFC3339Nano as Go prints it: UTC 'Z', or (hand-written / imported logs) the same instant
+    written with a numeric offset of [zone] minutes."""
     if t is None:
         return 'not-a-time'
     sec, nsec = t
-    d = datetime.datetime.utcfromtimestamp(sec)
     frac = ('%09d' % nsec).rstrip('0')
-    return d.strftime('%Y-%m-%dT%H:%M:%S') + ('.' + frac if frac else '') + 'Z'
+    if zone is None:
+        d = datetime.datetime.utcfromtimestamp(sec)
+        return d.strftime('%Y-%m-%dT%H:%M:%S') + ('.' + frac if frac else '') + 'Z'
+    d = datetime.datetime.utcfromtimestamp(sec + zone * 60)
+    sign = '+' if zone >= 0 else '-'
+    return d.strftime('%Y-%m-%dT%H:%M:%S') + ('.' + frac if frac else '') + '%s%02d:%02d' % (sign, abs(zone) // 60, abs(zone) % 60)
 
 
 def render_event(ev):
     t = ev['t']
-    at = ts_str(ev.get('at'))
+    at = ts_str(ev.get('at'), ev.get('zone'))
     g = lambda k: ev.get(k, '')
     if ev.get('bad'):
         data = {'id': 17}   # wrong field type: payload does not decode
@@ -59,8 +64,9 @@ def write_log(path, events):
 class LogGen:
     """Random typed logs over a small id universe: legal-looking histories, then mutated."""
 
-    def __init__(self, rng, nids=6, monotone=True):
+    def __init__(self, rng, nids=6, monotone=True, rich=False):
         self.rng = rng
+        self.rich = rich          # many live, todo, unclaimed items: exercises the ORDER of the ready list
         self.ids = ['T%05d' % k for k in range(nids)]
         if rng.random() < 0.15:
             self.ids[rng.randrange(nids)] = ''      # hand-written logs can carry the empty id; replay does not reject it
@@ -69,21 +75,26 @@ class LogGen:
 
     def now(self):
         if self.monotone:
-            self.clock += self.rng.choice([0, 1, 1, 5])
-            return [self.clock, self.rng.choice([0, 0, 500, 999999999])]
+            self.clock += self.rng.choice([0, 0, 1, 1, 5])
+            # fractions whose printed forms are prefixes of one another (…:05Z / …:05.2Z / …:05.25Z / …:05.257Z):
+            # comparing stamps as text instead of as instants goes wrong exactly on these
+            return [self.clock, self.rng.choice([0, 0, 500, 999999999, 200000000, 250000000, 257000000, 500000000])]
         return [EPOCH0 + self.rng.randrange(0, 50), self.rng.choice([0, 1])]
 
     def event(self, created):
         rng = self.rng
         i = rng.choice(self.ids)
         k = rng.random()
+        if self.rich and k >= 0.22 and k < 0.60 and rng.random() < 0.75:
+            k = 0.0 if len(created) < len(self.ids) else 0.6       # turn most state/claim/link events into creates
         if k < 0.22 or not created:
             is_epic = rng.random() < 0.25
             title = rng.choice(['T ' + i, 'x', '', '  ', 'títle'])
             body = rng.choice(['', 'b', '# H\n\nfirst\nrest', '\n\n', 'only line'])
             epic = '' if is_epic else rng.choice(['', ''] + self.ids)
-            return {'t': 'new_epic' if is_epic else 'new_task', 'id': i, 'uuid': 'u-' + i, 'epic': epic,
-                    'state': rng.choice(['todo', 'todo', 'todo', 'doing', 'weird', '']), 'title': title, 'body': body,
+            return {'zone': rng.choice([None, None, None, 330, -480, 60, 0]),
+                    't': 'new_epic' if is_epic else 'new_task', 'id': i, 'uuid': 'u-' + i, 'epic': epic,
+                    'state': 'todo' if self.rich and rng.random() < 0.85 else rng.choice(['todo', 'todo', 'todo', 'doing', 'weird', '']), 'title': title, 'body': body,
                     'at': self.now()}
         if k < 0.40:
             return {'t': 'state', 'id': i, 'state': rng.choice(['todo', 'doing', 'done', 'blocked', 'canceled', 'error', 'odd']),
@@ -114,7 +125,7 @@ class LogGen:
         for _ in range(n):
             e = self.event(created)
             if e['t'] in ('new_task', 'new_epic'):
-                if e['id'] in created and self.rng.random() < 0.85:
+                if e['id'] in created and self.rng.random() < (0.99 if self.rich else 0.85):
                     continue   # mostly avoid duplicate creates (they are a replay error; keep a few)
                 created.add(e['id'])
             evs.append(e)
